@@ -294,7 +294,7 @@ func (r *Report) finish(verifDir, tier string, seed int64, start time.Time, p *P
 		"seed":        seed,
 		"level":       r.Level,
 		"coverage":    cov,
-		"assumptions": r.Assumptions,
+		"assumptions": append([]string{"sequential execution of each analysed call unless the rule states otherwise", "user-supplied closures, String() methods and Operator implementations are opaque and excluded"}, r.Assumptions...),
 		"wall_s":      time.Since(start).Seconds(),
 		"violations":  len(viols),
 	}
